@@ -56,7 +56,15 @@ func renderOpts(protocol string, exts []string) string {
 
 var tokens = []string{"chat.v2", "json.v1", "mqtt.v5", "soap.v1", "wamp.v2", "xmpp.v1"}
 
-func protoFor(k int) string { return tokens[k%len(tokens)] }
+// protoFor: one subprotocol in seven is a long token (a bearer token carried as subprotocol name), longer than
+// the read buffers in use, so that its header line does not fit the handshake reader's buffer.
+func protoFor(k int) string {
+	t := tokens[k%len(tokens)]
+	if k%7 == 3 {
+		return t + "-" + strings.Repeat(string(rune('A'+k%26)), []int{300, 700, 1500, 5000}[k/7%4]) + fmt.Sprint(k)
+	}
+	return t
+}
 func extFor(k int) string {
 	return fmt.Sprintf("ext-%c%c; p%d=v%d; flag%d", 'a'+k%26, 'a'+(k/26)%26, k%10, (k/3)%10, k%7)
 }
